@@ -28,7 +28,7 @@ type captureStream struct {
 	envs []*remote.Envelope
 }
 
-func (s *captureStream) Context() context.Context                  { return context.Background() }
+func (s *captureStream) Context() context.Context { return context.Background() }
 func (s *captureStream) MsgSend(m drpc.Message, _ drpc.Encoding) error {
 	// a writer may use the generic entry point instead of Send
 	if e, ok := m.(*remote.Envelope); ok {
@@ -73,9 +73,9 @@ func (s *feedStream) MsgRecv(m drpc.Message, _ drpc.Encoding) error {
 	dst.Messages = append(dst.Messages, e.Messages...)
 	return nil
 }
-func (s *feedStream) CloseSend() error                          { return nil }
-func (s *feedStream) Close() error                              { return nil }
-func (s *feedStream) Send(*remote.Envelope) error               { return nil }
+func (s *feedStream) CloseSend() error            { return nil }
+func (s *feedStream) Close() error                { return nil }
+func (s *feedStream) Send(*remote.Envelope) error { return nil }
 func (s *feedStream) Recv() (*remote.Envelope, error) {
 	if s.i >= len(s.envs) {
 		return nil, context.Canceled
